@@ -96,7 +96,7 @@ func newSpecs() *Specs {
 	return &Specs{Contracts: map[string]*Contract{}, Ghosts: map[string]*GhostFunc{}, GhostVars: map[string]string{}, GhostByRef: map[string]bool{}, GhostUntracked: map[string]bool{}, Defs: map[string]*GhostDef{}}
 }
 
-var tagRe = regexp.MustCompile(`^([a-z]+)(\[[A-Za-z0-9_,\-]+\])?$`)
+var tagRe = regexp.MustCompile(`^([a-z]+)(\[[A-Za-z0-9_,:\-]+\])?$`)
 
 func splitTags(word string) (kind string, tags []string) {
 	m := tagRe.FindStringSubmatch(word)
@@ -390,7 +390,7 @@ func (S *Specs) loadFile(path, pkg string, goFile bool) error {
 					}
 				}
 			}
-		case "flag", "nowrap", "inline", "pure", "noinline", "maypanic", "params", "trusted", "total", "alloc", "bounded", "modifies", "axioms", "depth", "exact", "logged":
+		case "flag", "nowrap", "inline", "pure", "noinline", "maypanic", "params", "trusted", "total", "alloc", "bounded", "modifies", "axioms", "depth", "exact", "logged", "appendframe":
 			if cur == nil {
 				return fmt.Errorf("%s: flag outside func", src)
 			}
